@@ -381,6 +381,25 @@ namespace hv
         }
     };
 
+    // reads and overwrites a per-definition key of the run's GlobalState: a leak between runs changes what it reads
+    struct VGs
+    {
+        static constexpr auto name = "v_gs";
+        HV_LIFECYCLE
+        static void eval(In<"a", TS<Int>> a, Scalar<"uid", Int> uid, GlobalStateView gs, NodeView nv, DateTime now, Out<TS<Int>> out)
+        {
+            maybe_fault(uid.value(), "eval");
+            busy();
+            const std::string key = "verif.k" + std::to_string(uid.value() % 3);     // a few shared keys
+            const bool had  = gs.contains(key);
+            const Int  prev = had ? gs.get(key).checked_as<Int>() : Int{-1};
+            gs.set(key, Value{Int{wrap(a.value() + uid.value())}});
+            Line("u.gs").i(uid.value()).t(now).i(had ? 1 : 0).i(prev).i((long long)gs.size());
+            out.set(prev);
+            log_eval(uid.value(), nv, now, prev, a);
+        }
+    };
+
     // ---- sinks -------------------------------------------------------------------------
     struct VRec
     {
